@@ -113,6 +113,23 @@ Definition route (table : list (N * N)) (island : N) : option N :=
                            if (lo <=? island) && (island <=? hi) then Some i else acc)
             (index_from 0 table) None.
 
+(* ---- a client used over time: the routing table is (re)filled range by range - Connect
+        overwrites the islands of each server's range and removes nothing -, lookups in
+        between.  The table is the list of all (host, from, to) assignments so far, oldest
+        first; an island belongs to the last assignment covering it. *)
+Definition rtable := list (N * (N * N)).
+
+Definition route_h (tb : rtable) (island : N) : option N :=
+  fold_left (fun acc e => let '(h, (lo, hi)) := e in
+                          if (lo <=? island) && (island <=? hi) then Some h else acc) tb None.
+
+Inductive rstep :=
+| RFill (ranges : rtable)                                   (* Connect-style (re)fill *)
+| RLookup (i : nat) (with_host : bool) (host : option N).
+    (* GetServiceClientAndHost (true) / GetServiceClient (false) for the i-th name of the
+       case's population (a name with those parts, however the object was obtained);
+       the host the answer stands for, None = nil *)
+
 (* ---- name objects: builders and per-object caches ---------------------------------------
    A Name is built step by step (New().Sanctuary(s).Realm(r).Swamp(w)); every builder returns
    a NEW object that copies the parts and the path and starts with empty caches.  Prefix
@@ -199,7 +216,8 @@ Inductive case :=
 | CLoad (p : str) (srv_loaded sdk_loaded : option (triple * str))  (* Load(p): parts and Get(); None = panic *)
 | CAlias (t1 t2 : triple) (island : N) (depth : nat) (maxf : N) (path1 path2 : option str)
 | CRoute (t : triple) (n : N) (table : list (N * N)) (host : option N)
-| CProg (ops : list nop).
+| CProg (ops : list nop)
+| CRouteSeq (n : N) (pop : list triple) (steps : list rstep).
 
 (* codes: 1 model <> implementation    2 island outside 1..N    3 SDK and server islands differ
           4 location computation panics    5 reused name object ignores a changed N
@@ -207,7 +225,9 @@ Inductive case :=
           8 two fresh objects disagree (not a function of the name)
           9 Gallina XXH64 <> Go library
           10 the answer of a name object is not the pure function of its own parts / path
-             (it depends on how the object was built or on what was asked of other objects) *)
+             (it depends on how the object was built or on what was asked of other objects)
+          11 a routing answer of the client is not the function of the name's island and the
+             routing table at that moment *)
 Definition code_if (b : bool) (c : N) : list N := if b then [] else [c].
 
 Definition opt_str_eqb := option_eqb str_eqb.
@@ -275,6 +295,18 @@ Fixpoint chk_prog (ops : list nop) (st : list nobj) : list N :=
     end
   end.
 
+(* [isl]: the island of every name of the population (computed once per case) *)
+Fixpoint chk_route_seq (isl : list N) (steps : list rstep) (tb : rtable) : list N :=
+  match steps with
+  | [] => []
+  | RFill rs :: rest => chk_route_seq isl rest (tb ++ rs)
+  | RLookup i _ host :: rest =>
+    match nth_error isl i with
+    | Some island => code_if (option_eqb N.eqb host (route_h tb island)) 11
+    | None => [1]
+    end ++ chk_route_seq isl rest tb
+  end.
+
 Definition chk (c : case) : list N :=
   match c with
   | CAddr t n depth maxf island gh sdk1 sdk2 srv path1 path2 =>
@@ -309,6 +341,7 @@ Definition chk (c : case) : list N :=
   | CRoute t n table host =>
     code_if (option_eqb N.eqb host (route table (island_sdk t n))) 1
   | CProg ops => chk_prog ops []
+  | CRouteSeq n pop steps => chk_route_seq (map (fun t => island_sdk t n) pop) steps []
   end.
 
 Fixpoint dedup (l : list N) : list N :=
